@@ -41,7 +41,7 @@ Op == /\ l <= Len(Trace) /\ E.op # "Reset" /\ l' = l + 1 /\ UNCHANGED tid
 \* a history during which the library killed the process (a statement that ends up containing itself overflows the
 \* stack): the harness executes histories in child processes and records such a history as one event
 CrashEv == /\ l <= Len(Trace) /\ E.op = "Crash" /\ l' = l + 1 /\ tid' = E.trace
-           /\ CSVWrite("%1$s", <<ToJson([prop |-> "C02", trace |-> E.trace, line |-> l, key |-> "the library killed the process: " \o E.msg])>>, VFile)
+           /\ CSVWrite("%1$s", <<ToJson([prop |-> "CRASH", trace |-> E.trace, line |-> l, key |-> "the library killed the process: " \o E.msg])>>, VFile)
            /\ UNCHANGED <<vars, pf>>
 TNext == Reset \/ Op \/ CrashEv
 TSpec == TInit /\ [][TNext]_tvars
